@@ -23,7 +23,7 @@ ASSUMPTIONS = [
     "under jax.disable_jit the scan inside sample() runs as a Python loop, so the interposer sees one call per draw",
     "joint smoothing covariance from pdv/extract.markov_joint_mp; closed-form IWP joint for prior sequences",
 ]
-REQUIRED_OBS = {"zero_tapes": 10, "unit_tapes": 100, "gram_checks": 10, "shape_checks": 10}
+REQUIRED_OBS = {"zero_tapes": 10, "unit_tapes": 100, "gram_checks": 10, "shape_checks": 10, "pytree_sample_cases": 8}
 TOL = 1e-8
 
 
@@ -39,7 +39,7 @@ def cases(tier, seed):
             {
                 "id": f"c13-{k}", "source": ["fixedinterval", "fixedpoint", "prior"][k % 3], "fact": configs.FACTS[(k // 3) % 3],
                 "cal": rng.choice(configs.CALS), "ts": rng.choice(["ts0", "ts1"]), "nu": nu, "T": rng.randint(3, 5),
-                "init": rng.choice(["exact", "inexact"]), "pytree": rng.random() < 0.3, "span": rng.uniform(0.2, 0.8),
+                "init": rng.choice(["exact", "inexact"]), "struct": (2 * ((k // 9) % 4) + (k % 3) + seed) % 8, "span": rng.uniform(0.2, 0.8),
                 "field": field.to_json(), "inits": [[str(x) for x in b] for b in inits], "t0": str(t0),
                 "base": rng.choice([None, 0.5, 3.0]), "seedc": rng.randrange(10**9), "cost": 6.0,
             }
@@ -97,6 +97,64 @@ def _flat_sample(sample_tree, d, n):
         per_time = [np.asarray(jax.flatten_util.ravel_pytree(jax.tree.map(lambda x, i=i: x[i], c))[0]) for i in range(T)]
         out[:, j * d : (j + 1) * d] = np.stack(per_time)
     return out
+
+
+def _pytree_part(case, viols, obs, tags):
+    """A nested-pytree problem (incl. matrix- and tensor-valued leaves) through the public pipeline; every (factorisation,
+    structure) pair is visited by the case plan."""
+    import jax
+    import jax.flatten_util
+    import jax.numpy as jnp
+
+    from pdv.props import c15
+
+    tmpl = c15._structures(case["struct"])
+    flat0, unravel = jax.flatten_util.ravel_pytree(tmpl)
+    dd = flat0.size
+    r = np.random.default_rng(case["seedc"] + 7)
+    A, B = c15._field_params(r, dd)
+    f = c15._vf_flat(A, B)
+    u0 = r.uniform(0.2, 1.0, size=dd)
+    sub = {"fact": case["fact"], "ts": case["ts"], "cal": case["cal"], "strategy": "smoother", "tol": 1e-3,
+           "routine": "fixed" if case["source"] == "fixedinterval" else "adaptive"}
+    pts = np.asarray([0.0, 0.1, 0.15, 0.3, 0.5])
+    T = len(pts)
+
+    def rav(x):
+        return jax.flatten_util.ravel_pytree(x)[0]
+
+    sol = c15._solve(sub, lambda u, *, t: unravel(f(rav(u), t=t)), unravel(jnp.asarray(u0)), container=c15.Taylor4, save_at=pts, grid=pts)
+    post = sol.solution_full.posterior
+    ptags = {**tags, "struct": case["struct"], "pytree": True}
+    obs["pytree_sample_cases"] = 1
+    with jax.disable_jit(), _Tape() as tape:
+        s0 = tape.run(lambda: post.sample(jax.random.PRNGKey(0), shape=()), None)
+    want = jax.tree.structure(tmpl)
+    ok = True
+    for j, (coeff, mean_c) in enumerate(zip(s0, sol.u.mean)):
+        if jax.tree.structure(coeff) != want:
+            viols.append(util.viol("sample_structure", f"coefficient {j} of the sample has structure {jax.tree.structure(coeff)}, the caller's is {want}", tags=ptags))
+            ok = False
+            break
+        for leaf, ref, m in zip(jax.tree.leaves(coeff), jax.tree.leaves(tmpl), jax.tree.leaves(mean_c)):
+            if tuple(leaf.shape) != (T, *ref.shape):
+                viols.append(util.viol("sample_shape", f"pytree state: sample leaf shape {leaf.shape}, expected {(T, *ref.shape)}", tags=ptags))
+                ok = False
+                continue
+            dev = float(np.max(np.abs(np.asarray(leaf) - np.asarray(m)) / (np.abs(np.asarray(m)) + 1e-6)))
+            obs["max_pytree_zero_draw_dev"] = max(obs.get("max_pytree_zero_draw_dev", 0.0), dev)
+            if not dev <= 1e-7:
+                viols.append(util.viol("zero_draws_equal_means", f"pytree state (structure {case['struct']}): with all draws zero, coefficient {j} deviates from the returned means by {dev:.3g}", tags=ptags))
+                ok = False
+    if ok:
+        for shape in ((2,), (2, 3)):
+            smp = post.sample(jax.random.PRNGKey(5), shape=shape)
+            obs["shape_checks"] = obs.get("shape_checks", 0) + 1
+            for coeff in smp:
+                for leaf, ref in zip(jax.tree.leaves(coeff), jax.tree.leaves(tmpl)):
+                    if tuple(leaf.shape) != (*shape, T, *ref.shape) or not np.all(np.isfinite(np.asarray(leaf))):
+                        viols.append(util.viol("sample_shape", f"pytree state, shape={shape}: leaf shape {leaf.shape}, expected {(*shape, T, *ref.shape)}", tags=ptags))
+                        break
 
 
 def run_case(case):
@@ -216,6 +274,9 @@ def run_case(case):
                 if tuple(leaf.shape[: len(shape)]) != shape or leaf.shape[len(shape)] != T or not np.all(np.isfinite(np.asarray(leaf))):
                     viols.append(util.viol("sample_shape", f"shape={shape}: leaf shape {leaf.shape}", tags=tags))
                     break
+    # (5) pytree-shaped states: samples come back in the caller's structure, sample shape prepended, zero draws = means
+    if case["source"] != "prior":
+        _pytree_part(case, viols, obs, tags)
     sigs = []
     if (d > 1 or nu > 1) and T >= 3:
         sigs.append(f"{case['source']}|{fact}|{case['cal']}|{nu}|{d}|{T}")
